@@ -52,6 +52,33 @@ def entries_of(a, common):
     return out
 
 
+class MissingDict(dict):
+    """A dict subclass with a default for missing keys (only reached through subscription, never through .get)."""
+
+    def __missing__(self, key):
+        self[key] = 0
+        return 0
+
+
+def make_mapping(pairs, kind):
+    """The caller's mapping in one of the kinds a caller may legitimately hold."""
+    import collections
+
+    d = dict(map(tuple, pairs))
+    if kind == "defaultdict":
+        out = collections.defaultdict(int)
+        out.update(d)
+        return out
+    if kind == "missing":
+        return MissingDict(d)
+    if kind == "ordered":
+        return collections.OrderedDict(d)
+    return d
+
+
+MAPPING_KINDS = ("dict", "dict", "dict", "defaultdict", "missing", "ordered")
+
+
 def strided(entries):
     """The same entries held in non-contiguous row-id arrays (every other element of a bigger one)."""
     out = {}
